@@ -13,6 +13,7 @@ pub mod c09;
 pub mod c10;
 pub mod c13;
 pub mod c14;
+pub mod c17;
 pub mod c18;
 pub mod c19;
 pub mod c20;
@@ -21,7 +22,7 @@ pub mod peer;
 pub mod common;
 
 pub fn ids() -> Vec<&'static str> {
-    vec!["C01", "C02", "C03", "C04", "C05", "C06", "C07", "C08", "C09", "C10", "C13", "C14", "C18", "C19", "C20"]
+    vec!["C01", "C02", "C03", "C04", "C05", "C06", "C07", "C08", "C09", "C10", "C13", "C14", "C17", "C18", "C19", "C20"]
 }
 pub fn get(id: &str) -> Option<Box<dyn Check>> {
     match id {
@@ -37,6 +38,7 @@ pub fn get(id: &str) -> Option<Box<dyn Check>> {
         "C10" => Some(Box::new(c10::C10)),
         "C13" => Some(Box::new(c13::C13)),
         "C14" => Some(Box::new(c14::C14)),
+        "C17" => Some(Box::new(c17::C17)),
         "C18" => Some(Box::new(c18::C18)),
         "C19" => Some(Box::new(c19::C19)),
         "C20" => Some(Box::new(c20::C20)),
